@@ -32,5 +32,36 @@ CHECKS = {
         'technique': 'exhaustive differential run of the real code against a spec reference, under ASan/UBSan',
     },
 }
+CHECKS.update({
+    'C05': {
+        'text': 'The real DataField::read runs on every raw pattern of every 1-/2-byte type (exhaustive), all days of 2000-2099, all day '
+                'counts, boundary and random wide patterns, for several divisors and text/JSON output; an independent exact-arithmetic '
+                'reference (Python Fraction/datetime) transcribed from the type table decides each result; ASan+UBSan on.',
+        'design_ref': 'DESIGN.md section 2, C05',
+        'note': 'trusted: oracle/ref_codec.py (type table transcription), float32 tolerance rule; ambiguous patterns are recorded, not judged',
+        'technique': 'exhaustive/random differential run of the real decoder against an exact reference codec, under ASan/UBSan',
+    },
+    'C06': {
+        'text': 'Same executions as C05 plus write-back: each decodable pattern is re-encoded from its own text (into an empty buffer and '
+                'over the original bytes) and must reproduce the owned bits; user-style texts are checked for the encode-decode-encode fixed point.',
+        'design_ref': 'DESIGN.md section 2, C06',
+        'note': 'trusted: bit ownership per type from the reference table; lossless domain defined by |text - exact| < half a raw step',
+        'technique': 'round-trip monitor over exhaustive/random executions of the real codec, under ASan/UBSan',
+    },
+    'C07': {
+        'text': 'Decimal/hex/exponent texts concentrated on every width and range boundary are written through the real field writers; an '
+                'arbitrary-precision parser decides whether acceptance was permitted and whether the written bytes decode to within one step.',
+        'design_ref': 'DESIGN.md section 2, C07',
+        'note': 'trusted: oracle parse_number (exact rationals); leading-zero integers may be read as decimal or octal',
+        'technique': 'boundary-value generation with an arbitrary-precision reference oracle on real executions, under ASan/UBSan',
+    },
+    'C12': {
+        'text': 'Random histories of codec operations incl. failing/overflowing ones; probes are executed in a pristine forked child and in the '
+                'history process (same or new thread) and must agree bit for bit; shared-stream formatting must equal separate formatting.',
+        'design_ref': 'DESIGN.md section 2, C12',
+        'note': 'trusted: fork() snapshot taken before any codec operation represents a fresh process; load-order part is covered at message level (C19 driver)',
+        'technique': 'history-vs-fresh-process differential monitor (metamorphic purity check) on real executions, under ASan/UBSan',
+    },
+})
 for e in ENGINES:
     e['serves_properties'] = sorted(CHECKS)
